@@ -1199,6 +1199,9 @@ func (env *Environment) ForceError() {
 	}
 	env.transitionMutex.Lock()
 	defer env.transitionMutex.Unlock()
+	if env.Sm.Current() == "DONE" {
+		return
+	}
 	env.setState("ERROR")
 }
 
